@@ -123,11 +123,16 @@ def run_impl(case):
         r["Vmax"] = int(rp.max_vertlength())
         r["ENTR"] = float(rp.diag_entropy(lm))
         r["VENTR"] = float(rp.vert_entropy(vm))
+        sm = rp.rqa_summary(lm, vm)
+        r["summary"] = [float(sm["RR"]), float(sm["DET"]), float(sm["L"]),
+                        float(sm["LAM"])]
+        r["TT_alias"] = float(rp.trapping_time(vm))
         if not sparse:
             r["white"] = rp.white_vertline_dist().tolist()
             r["Wmax"] = int(rp.max_white_vertlength())
             r["MRT"] = float(rp.average_white_vertlength(wm))
             r["WENTR"] = float(rp.white_vert_entropy(wm))
+            r["MRT_alias"] = float(rp.mean_recurrence_time(wm))
             r["R"] = rp.recurrence_matrix().astype(int).tolist()
             r["E"] = np.asarray(rp.embedding, dtype=float).tolist()
             r["M"] = ([bool(b) for b in rp.missing_value_indices]
@@ -161,14 +166,16 @@ Definition eps : Q := (1 # 100000000)%Q.
    (DET, L, LAM, TT, MRT), (Lmax, Vmax, Wmax) *)
 Definition check_mat (c : list (list bool) * list bool * bool *
     (list nat * list nat * list nat) * (nat * nat * nat) *
-    (Q * Q * Q * Q * Q) * (nat * nat * nat)) : bool :=
+    (Q * Q * Q * Q * Q) * (nat * nat * nat) * (Q * Q * Q)) : bool :=
   let '(R, M, mv, (v, d, w), (lmin, vmin, wmin), (det, l, lam, ttm, mrt),
-        (lmax, vmax, wmax)) := c in
+        (lmax, vmax, wmax), (sdet, sl, slam)) := c in
   let '(mv_, md, mw) := all_dists R M mv in
   eqln mv_ v && eqln md d && eqln mw w &&
   close (ratio_measure eps lmin md) det && close (avg_measure eps lmin md) l &&
   close (ratio_measure eps vmin mv_) lam && close (avg_measure eps vmin mv_) ttm &&
   close (avg_measure eps wmin mw) mrt &&
+  close (ratio_measure eps lmin md) sdet && close (avg_measure eps lmin md) sl &&
+  close (ratio_measure eps vmin mv_) slam &&
   Nat.eqb (max_len md) lmax && Nat.eqb (max_len mv_) vmax &&
   Nat.eqb (max_len mw) wmax.
 (* sequential mode: E, eps, M, mv, (vert, diag), rr *)
@@ -194,7 +201,9 @@ def mat_term(case, r):
             f"({case['lmin']}, {case['vmin']}, {case['wmin']}), "
             f"({qlit(m['DET'])}, {qlit(m['L'])}, {qlit(m['LAM'])}, "
             f"{qlit(m['TT'])}, {qlit(m['MRT'])}), "
-            f"({m['Lmax']}, {m['Vmax']}, {m['Wmax']}))")
+            f"({m['Lmax']}, {m['Vmax']}, {m['Wmax']}), "
+            f"({qlit(m['summary'][1])}, {qlit(m['summary'][2])}, "
+            f"{qlit(m['summary'][3])}))")
 
 
 def seq_term(case, r):
@@ -370,6 +379,29 @@ def check_case(ctx, c, r):
             if not (abs(gv - wv) <= 1e-9 * (1 + abs(wv))):
                 ctx.violation(f"{nm} != stated function of the histogram",
                               tag, dict(key, got=gv, want=wv))
+    # rqa_summary and the alias methods report the same numbers
+    for mode, rr in (("mat", m), ("seq", s)):
+        if has_unmasked_nan(c, r) and mode == "seq":
+            continue
+        dd = formulas(rr["diag"], c["lmin"], n)
+        vv = formulas(rr["vert"], c["vmin"], n)
+        want = [rr["RR"], dd[0], dd[1], vv[0]]
+        for nm, gv, wv in zip(("RR", "DET", "L", "LAM"), rr["summary"], want):
+            if not (abs(gv - wv) <= 1e-9 * (1 + abs(wv))):
+                ctx.violation("rqa_summary != scalar RQA definitions",
+                              f"{mode} {nm}", dict(key, got=gv, want=wv))
+        if not abs(rr["TT_alias"] - vv[1]) <= 1e-9 * (1 + abs(vv[1])):
+            ctx.violation("trapping_time != average vertical line length",
+                          mode, dict(key, got=rr["TT_alias"], want=vv[1]))
+    if not mv:
+        blk = sum(sum(row) for row in R)
+        if abs(m["RR"] - blk / n ** 2) > 1e-12:
+            ctx.violation("recurrence_rate != black / n^2", "matrix mode",
+                          dict(key, got=m["RR"], want=blk / n ** 2))
+    ww = formulas(m["white"], c["wmin"], n)
+    if not abs(m["MRT_alias"] - ww[1]) <= 1e-9 * (1 + abs(ww[1])):
+        ctx.violation("mean_recurrence_time != average white line length",
+                      "matrix mode", dict(key, got=m["MRT_alias"], want=ww[1]))
     ctx.stat("n=%d" % min(n, 13) if n < 13 else "n>=13")
     ctx.stat("kind=" + c["kind"].split("-")[0])
     ctx.stat("missing_values=" + str(mv))
